@@ -275,7 +275,7 @@ def model_save_quantized_weights(model, filename=None, custom_objects={}):
       elif any(isinstance(layer, t) for t in [QSimpleRNN, QLSTM, QGRU]):
         qs = layer.get_quantizers()[:-1]
         ws = layer.get_weights()
-      elif layer.__class__.__name__ == "QBatchNormalization":
+      elif isinstance(layer, QBatchNormalization):
         # get_quantizers() always lists the [gamma, beta, mean, variance,
         # inverse] quantizers, but get_weights() has no gamma when scale is
         # False and no beta when center is False. Pair each weight with its
